@@ -12,9 +12,9 @@ Local Open Scope Z_scope.
 Definition fcode (f : option finding) : Z :=
   match f with
   | None => 0
-  | Some F_plain_copy => 1 | Some F_fetch_star => 2 | Some F_fetch_comma => 3
+  | Some F_fetch_star => 2 | Some F_fetch_comma => 3
   | Some F_fetch_star_first => 4 | Some F_fetch_reversed => 5 | Some F_fetch_beyond => 6
-  | Some F_fetch_single_label => 7 | Some F_search_star => 8 | Some F_search_comma => 9
+  | Some F_search_star => 8 | Some F_search_comma => 9
   | Some F_search_star_first => 10 | Some F_search_reversed => 11 | Some F_search_beyond => 12
   | Some F_search_huge => 13 | Some F_uidsearch_shape => 14 | Some F_deleted_substring => 15
   | Some F_junk_move_shift => 16 | Some F_noop_notices => 17
@@ -72,9 +72,9 @@ Definition case_copy (parts : list str) (n : Z) (got : option Z) (ast : option s
   pack (opt_eqb Z.eqb (option_map (fun l => Z.of_nat (length l)) (plain_copy parts n)) got)
        (with_ast ast true (fun a => match got with
                                      | None => match addressed a n with [] => true | _ => false end
-                                     | Some c => c =? Z.of_nat (length (addressed a n))
+                                     | Some c => copy_count_ok a n c
                                      end))
-       true (classify_copy parts).
+       true None.
 Definition case_uidcopy (s : str) (uids : list Z) (got : Z) (ast : option seqset) : Z :=
   pack (Z.of_nat (length (parse_uidset_db s uids)) =? got) true (ast_print_ok ast s) None.
 
